@@ -58,6 +58,29 @@ theorem u10_step_tolerance (F : ℝ → ℝ) (u : ℝ) (h : Certified F u10Cfg u
   obtain ⟨prev, _, _, _, h1, _, _⟩ := h
   exact ⟨prev, by simpa [u10Cfg] using h1⟩
 
+/-- a returned estimate was reached by a regular step of the hybrid (under-relaxed Newton or secant
+update, or a bisection), never by an Aitken extrapolation — a short extrapolation says nothing about
+the distance to the root -/
+theorem u10_reached_regularly (F : ℝ → ℝ) (bulkRate guessU10 guessDir u : ℝ) (hb : bulkRate ≠ 0)
+    (h : (u10FromBulkRate F bulkRate guessU10 guessDir).1 = some u) : ReachedRegularly F u10Cfg u := by
+  simp only [u10FromBulkRate] at h
+  split at h
+  · rename_i hz
+    simp only [beq_iff_eq] at hz
+    exact absurd hz hb
+  · exact newtonRaphson_regular F u10Cfg rfl guessU10 u h
+
+/-- … and for an (unclipped) Newton/secant step of slope `d` from `prev` to `u` the balance at `prev`
+is exactly `-d (u - prev) / 0.9`: with a last step below 0.01 m/s the balance there is below
+`|d| · 0.01 / 0.9` — integrated input plus dissipation vanishes to the step tolerance times the slope -/
+theorem u10_residual_of_newton_step (F : ℝ → ℝ) (prev u d : ℝ) (hd : d ≠ 0)
+    (hu : u = prev + -F prev / d * u10Cfg.underRelax) : F prev = -d * (u - prev) / (9 / 10) := by
+  have h9 : (u10Cfg (α := ℝ)).underRelax = 9 / 10 := by simp [u10Cfg]
+  rw [h9] at hu
+  rw [hu]
+  field_simp
+  ring
+
 /-- the rate-of-change term only counts the actively forced bins (`generation > 0`) -/
 theorem active_region_zero_of_no_generation (g : Grid ℝ) (dEdt gen : List (List ℝ))
     (h : ∀ row ∈ gen, ∀ x ∈ row, x ≤ 0) : activeRegionDerivative g dEdt gen = 0 := by
